@@ -76,6 +76,7 @@ type Solver struct {
 	FastMs    int
 	noFast    bool
 	curLimit  int
+	altStreak int
 }
 
 var dumpSlow = os.Getenv("VERIF_DUMP_SLOW")
@@ -244,8 +245,30 @@ func (s *Solver) Check(pc []*Term, extra []*Term, vars []*Term) (SatResult, map[
 	if fast <= 0 || fast > s.timeoutMs {
 		fast = s.timeoutMs
 	}
+	// adaptive order: after three queries in a row that the primary back end
+	// gave up on within the short limit and the alternate decided, the alternate
+	// is asked first until it gives up once
+	if s.altStreak >= 3 && s.alt != nil {
+		t0 := time.Now()
+		r0, m0 := s.alt.check1(pc, extra, vars, s.timeoutMs)
+		s.Stats.Queries++
+		s.Stats.AltQueries++
+		s.Stats.Time += time.Since(t0)
+		if r0 != Unknown {
+			s.Stats.AltDecided++
+			if r0 == Sat {
+				s.Stats.Sat++
+			} else {
+				s.Stats.Unsat++
+			}
+			return r0, m0
+		}
+		s.Stats.Queries--
+		s.altStreak = 0
+	}
 	res, model := s.check1(pc, extra, vars, fast)
 	if res != Unknown {
+		s.altStreak = 0
 		return res, model
 	}
 	account := func(r SatResult) {
@@ -269,8 +292,10 @@ func (s *Solver) Check(pc []*Term, extra []*Term, vars []*Term) (SatResult, map[
 			s.Stats.AltQueries++
 			if r2 != Unknown {
 				account(r2)
+				s.altStreak++
 				return r2, m2
 			}
+			s.altStreak = 0
 		}
 	}
 	if fast < s.timeoutMs {
